@@ -22,6 +22,14 @@ def main():
     ctx = vlib.Ctx(prop, a.tier, seed)
     try:
         if a.replay:
+            import json
+            try:
+                payload = json.load(open(a.replay))
+            except (OSError, ValueError):
+                payload = {}
+            if payload.get("neighbourhood"):
+                import neighbour
+                return neighbour.replay(ctx, payload)
             return mod.replay(ctx, a.replay)
         mod.run(ctx)
         # Source pins (tools/srcpin.py): when a file this property is anchored in differs from the tree the thorough tier was
@@ -35,6 +43,23 @@ def main():
                 ctx = vlib.Ctx(prop, "thorough", seed)
                 ctx.escalated_from_quick = hit
                 mod.run(ctx)
+        # ... and, when the closed spaces still show nothing, to the neighbourhood of the changed code (tools/neighbour.py):
+        # documents near those that execute the changed lines, on which the current tree and the validated sources behave
+        # differently, judged by this property's own document-level oracle.
+        if not a.replay and not ctx.violations and not os.environ.get("VERIF_NO_ESCALATE") and not os.environ.get("VERIF_NB_CHILD"):
+            import srcpin, neighbour, json
+            hit = srcpin.affected(prop)
+            if hit and prop in neighbour.SUPPORTED:
+                st = neighbour.search(ctx, prop, hit)
+                print(f"NEIGHBOURHOOD property={prop}: " + json.dumps({k: v for k, v in st.items() if k not in ('samples', 'changed_lines')}))
+                try:
+                    evp = os.path.join(vlib.ROOT, "evidence", prop + ".json")
+                    ev = json.load(open(evp))
+                    ev["coverage"]["changed_code_neighbourhood"] = st
+                    ev["violations"] = len(ctx.violations)
+                    json.dump(ev, open(evp, "w"), indent=1, default=str)
+                except (OSError, ValueError, KeyError):
+                    pass
     except vlib.MachineryError as e:
         print(f"MACHINERY-ERROR {prop}: {e}", file=sys.stderr)
         return 2
